@@ -22,6 +22,8 @@ def case_name(c):
         s += "/codes=" + ",".join(map(str, c["codes"]))
     if c["mask"]["kind"] == "bool":
         s += "/bits=" + "".join("1" if b else "0" for b in c["mask"]["bits"])
+    if c.get("via"):
+        s = "GroupBy." + s + ("/key chunks=" + "+".join(map(str, c["lengths"])) if c.get("lengths") else "/contiguous key")
     return s
 
 
@@ -43,6 +45,11 @@ def build(case, inp):
         d["codes"] = list(case["codes"])
         if inp.concrete is None:
             inp.vars["k"] = ("const", list(case["codes"]), "int64")
+    elif case.get("lengths"):
+        from .gbcore import ChunkedState
+        st = ChunkedState(inp, case["lengths"], [min(L, G) for L in case["lengths"]], G)
+        d["codes"] = st.global_codes()
+        d["state"] = st
     else:
         d["codes"] = inp.codes("k", N, G)
     d["values"] = inp.values("v", N, dt, sum_safe=case["op"] in ("rolling_sum", "rolling_mean", "rolling_diff"))
@@ -54,7 +61,27 @@ def build(case, inp):
     return d
 
 
+def call_gb(E, case, d):
+    """the public GroupBy.rolling_sum/mean/min/max, shift, diff on a directly constructed state; cuts as in gbcore.install_cuts"""
+    from ..models import FakeSeries
+    from .cumulative import _gb_state
+    gb = _gb_state(E, case, d)
+    dt = real_np.dtype(case["dtype"])
+    vals = A(d["values"], dt).tag("input:values")
+    mask = A(d["mask"], "bool").tag("input:mask") if "mask" in d else None
+    op, W = case["op"], case["W"]
+    if op == "rolling_shift":
+        out = gb.shift(vals, W, mask)
+    elif op == "rolling_diff":
+        out = gb.diff(vals, W, mask)
+    else:
+        out = getattr(gb, op)(vals, window=W, min_periods=case.get("min_periods"), mask=mask)     # keyword call: the parameter order differs between methods
+    return out.arr if isinstance(out, FakeSeries) else out
+
+
 def call(E, case, d):
+    if case.get("via"):
+        return call_gb(E, case, d)
     nbm = E["gbnumba"]
     dt = real_np.dtype(case["dtype"])
     codes = A(d["codes"], "int64").tag("input:group_key")
@@ -212,6 +239,17 @@ def signature(case, labels):
 
 def real_call(case, conc):
     import groupby_lib.groupby.numba as rnb
+    if case.get("via"):
+        from .cumulative import real_gb_of
+        gb = real_gb_of(case, conc)
+        vals = np_values(to_float_cells(conc["v"]), case["dtype"])
+        mask = real_np.array(conc["m"], dtype=bool) if case["mask"]["kind"] == "bool_sym" else None
+        op, W = case["op"], case["W"]
+        if op == "rolling_shift":
+            return real_np.asarray(gb.shift(vals, W, mask))
+        if op == "rolling_diff":
+            return real_np.asarray(gb.diff(vals, W, mask))
+        return real_np.asarray(getattr(gb, op)(vals, window=W, min_periods=case.get("min_periods"), mask=mask))
     codes = real_np.array(conc["k"], dtype="int64")
     vals = np_values(to_float_cells(conc["v"]), case["dtype"])
     if case.get("chunks"):
